@@ -27,7 +27,7 @@ def run_case(case):
                     sc.do_create()      # new, still untracked files (written by an agent or a person) take part in the splits too
                 else:
                     sc.do_edit()
-            kind = rng.choice(["files", "hunks", "hunks", "paths", "all"])
+            kind = rng.choice(["files", "hunks", "hunks", "paths", "all", "reworded"])
             before = sc.head()
             if kind == "files":
                 sc.op_partial_commit()
@@ -35,6 +35,8 @@ def run_case(case):
                 sc.op_hunk_commit()
             elif kind == "paths":
                 sc.op_commit_paths()
+            elif kind == "reworded":
+                sc.op_commit_index_then_reworded()
             else:
                 sc.commit_all("all%d" % ci)
             c = sc.head()
